@@ -145,7 +145,7 @@ RItem(sec, kv, name, toks, rc) ==
                             multi == IsMulti(o)
                             hit   == IF titled /\ (multi \/ o.vals = <<>>)
                                        THEN FindTitle(o.vals, title, nocase) ELSE 0
-                            fresh == [title |-> title, opts |-> InitOpts(o.sub)]
+                            fresh == MkSec(title, InitOpts(o.sub))
                             (* where the body goes, and the section to start from *)
                             ii    == IF multi \/ o.vals = <<>>
                                        THEN (IF hit # 0 THEN hit ELSE Len(o.vals) + 1)
